@@ -81,6 +81,8 @@ pub struct SpyState {
     pub extra: Option<ExtraFn>,
     /// thread ids (std) of flush callers, in order — used by the ticker monitors
     pub flush_threads: Vec<std::thread::ThreadId>,
+    /// session-local logical thread ids (verif-hooks) of flush callers, in order
+    pub flush_logical: Vec<Option<u32>>,
     pub record_flush_threads: bool,
 }
 
@@ -117,6 +119,7 @@ impl SpyTerm {
             user_lines: 0,
             extra: None,
             flush_threads: Vec::new(),
+            flush_logical: Vec::new(),
             record_flush_threads: false,
         };
         Self {
@@ -230,6 +233,7 @@ impl SpyTerm {
                 st.flushes += 1;
                 if st.record_flush_threads {
                     st.flush_threads.push(std::thread::current().id());
+                    st.flush_logical.push(indicatif::verif_hooks::current_thread());
                 }
                 st.cross_check();
                 if st.snap_on_flush {
